@@ -116,6 +116,7 @@ def run(ctx) -> None:
     rep.rule("C07.R1", "derivation methods and their helpers never write through the receiver (memoisation of derivation-invariant values excepted)", floor=10)
     rep.rule("C07.R2", "every mutable-container attribute is fresh on the copy or never mutated in place after construction", floor=8)
     rep.rule("C07.R3", "cached values that depend on an attribute a derivation writes are dropped from the copy; invalidation resolves through the MRO", floor=6)
+    rep.rule("C07.R5", "computing a graph's specification or validating it has no side effect on the nodes and graphs it is computed from", floor=25)
     rep.rule("C07.R4", "derivations return the clone / a new object, never the receiver", floor=10)
 
     derivs = _derivations(db)
@@ -198,6 +199,18 @@ def run(ctx) -> None:
         rep.add("C07.R4", f"{ci.name}:{h.cls.name}.{h.name}", ok, h.loc(), "copy helper returns copy.copy(self)" if ok else "copy helper does not return a fresh copy.copy(self)")
 
 
+
+
+    # ---- R5 ---------------------------------------------------------------------
+    n5 = 0
+    for f5 in db.all_funcs():
+        if f5.module.name not in ("hypergraph.graph.input_spec", "hypergraph.graph.validation", "hypergraph.graph._conflict") or f5.parent is not None or f5.name == "__init__":
+            continue
+        n5 += 1
+        eff = [(p_, e) for p_ in f5.param_names for e in E.writes(f5, p_, include_unknown=False)]
+        rep.add("C07.R5", f"{f5.qname}:pure", not eff, f5.loc(), "neither writes nor mutates anything reachable from its parameters" if not eff else f"{fmt_effect(eff[0][1])} through parameter '{eff[0][0]}': building or inspecting one graph rewrites an object that belongs to another (e.g. the cached inputs.bound of a nested graph) — the receiver of as_node()/with_inputs() changes after the fact")
+    if n5 < 25:
+        raise AnalysisError(f"only {n5} specification/validation functions found")
 
 def _copy_helper(db, ci: ClassInfo) -> FuncInfo | None:
     if ci is db.cls("graph.core.Graph"):
